@@ -384,6 +384,10 @@ def ref_spec(plan, i, compiled_override=None):
         # m.wire() is an explicit, documented mutation: a handle wired by an earlier `wire` op is the
         # same thing as a handle decoded with wiring on
         wired = dop.get('wire', True) or any(o['op'] == 'wire' and o.get('h') == op['h'] for o in plan['ops'][:i])
+        if plan['msgs'][dop['m']].get('soft'):
+            # a message that cannot be wired: every earlier attempt failed and - the object being what it was
+            # before - this operation must end like the same operation on a freshly (unwired) decoded message
+            wired = False
         chain.append({'op': 'decode', 'c': 0, 'm': 0, 'wire': wired, 'ive': dop.get('ive', False)})
         mi = dop['m']
         o2 = dict(op)
@@ -550,7 +554,7 @@ def set_rejected(rejected):
                'opkind': 'wide' if r['ref'].startswith('synop') and _is_wide(r['hex']) else None}
         if st == 'ok' and j is not None:
             ent.update({'json': j['json'], 'nsub': j['nsub'], 'key': j['key'], 'marker': j['marker'], 'soft': True,
-                        'twin': r.get('twin')})
+                        'twin': r.get('twin'), 'qs': gen_queries(random.Random(int(_h(r['hex']), 16)), r)})
         REJECTED.append(ent)
 
 
@@ -594,6 +598,12 @@ def _hist_json(arg):
 
 
 core.register('hist_json', _hist_json)
+
+
+def _gives_handle(msg, wire):
+    """a decode of this message yields a message object the history can go on using: every admitted message, and a
+    softly rejected one (decodable, not wireable) when it is decoded without wiring"""
+    return (not msg.get('rej')) or (bool(msg.get('soft')) and not wire)
 
 
 def gen_plan(family, seed, msgs, tier='quick', index=None):
@@ -711,7 +721,7 @@ def gen_plan(family, seed, msgs, tier='quick', index=None):
             for o in blk:
                 if o['op'] == 'decode':
                     o.update({'wire': True, 'ive': False})
-                    if not chosen[o['m']].get('rej'):
+                    if _gives_handle(chosen[o['m']], True):
                         handles.append((len(ops), o['m'], chosen[o['m']]['nsub'], True))
                 ops.append(o)
         if step == block_at:
@@ -729,7 +739,7 @@ def gen_plan(family, seed, msgs, tier='quick', index=None):
             if not prev:
                 continue
             op = json.loads(json.dumps(prev[-1] if rng.random() < 0.6 else rng.choice(prev)))
-            if op['op'] == 'decode' and not chosen[op['m']].get('rej'):
+            if op['op'] == 'decode' and _gives_handle(chosen[op['m']], op.get('wire', True)):
                 handles.append((len(ops), op['m'], chosen[op['m']]['nsub'], op.get('wire', True)))
             ops.append(op)
             continue
@@ -741,7 +751,7 @@ def gen_plan(family, seed, msgs, tier='quick', index=None):
         if k == 'decode':
             op = {'op': 'decode', 'c': c, 'm': mi, 'wire': rng.random() < (0.4 if chosen[mi].get('soft') else 0.85),
                   'ive': rng.random() < p_ive}
-            if not chosen[mi].get('rej'):
+            if _gives_handle(chosen[mi], op['wire']):
                 handles.append((len(ops), mi, chosen[mi]['nsub'], op['wire']))
         elif k == 'cli':
             op = {'op': 'cli', 'm': mi, 'argv': gen_cli_argv(rng, chosen[mi])}
